@@ -18,7 +18,10 @@ compared only below the 100-distinct-value cap.
   with one witness per failing class (`uint_not_numeric`, `float32_not_numeric`, `bin_not_string`,
   `percent_v_large_int_rules`, `percent_v_large_int_root_key`, `json_batch_number_parse`,
   `forwarded_small_uint`), each reproduced on the real ingestion paths and samplers (corpus/C09).
-* `encoding_invariant_partial` — what does hold, under the hypothesis the proof forces.
+* `encoding_invariant_partial` — what does hold, under the hypothesis the proof forces (`SafePair`:
+  values reach the samplers as int64 / float64 / string / bool / nil, JSON batch literals parsed
+  exactly, integers below 10^6), derived from `encoding_invariant_of_sim` (values that the four rule
+  coercions and the two key renderings cannot tell apart).
 -/
 namespace Refinery.Props.C09
 open Refinery Refinery.Model Refinery.Model.Decode
@@ -136,6 +139,11 @@ theorem order_invariant (S : Samplers) (root : Option ESpan) (s₁ s₂ : List E
     · exact hdown
   simp only [outcome, hdyn, hrules]
 
+/-! ## rules sampler: a value enters a condition only through four coercions -/
+
+/-- two Go values that none of the rules sampler's coercions can tell apart: `%v`
+(`convertToString`, hence `TryConvertToBool`, the string / regexp / `in` operators),
+`tryConvertToInt`, `tryConvertToFloat`, and `compare` against any condition value -/
 structure RSim (E : Ext) (v₁ v₂ : Val) : Prop where
   fmt : E.fmt v₁ = E.fmt v₂
   int : Rules.tryInt E v₁ = Rules.tryInt E v₂
